@@ -114,7 +114,9 @@ def file_twin_stage(rep, gen_case, rng, n):
         share = rng.random() < 0.3
         layout, top = fscheck.chain_layout(rng, layers, exts=("json", "yaml", "toml", "toml", "yml", "jsonl"), share=share)
         kinds = "+".join(sorted({f.rsplit(".", 1)[1] for f in layout}))
-        cases.append({"layout": layout, "opts": {"inputs": [top], "format": "json"}, "env": c.get("env") or {},
+        # the output format varies too (the model's writer decides what a format can hold)
+        cases.append({"layout": layout, "opts": {"inputs": [top], "format": rng.choice(["json", "json", "json", "yaml", "toml", "json-pretty"])},
+                      "env": c.get("env") or {},
                       "meta": {"kind": kinds + ("+anchors" if share else "")}})
     return fscheck.file_chain_stage(rep, cases, "the same layers as files, evaluated by the command line")
 
